@@ -499,6 +499,7 @@ fn corpus_fixpoints(ctx: &mut Ctx) {
 /// separators inside exponents, zero offsets in named zones, old grid versions, ...). Each is offered bare,
 /// inside a list, as a dict tag and as a grid cell; rejected ones only count as a class.
 const ZINC_EDGE_SPELLINGS: &[&str] = &[
+    "\u{feff}42", "\u{feff}[1]", "\u{feff}ver:\"3.0\"\na\n1\n", " 42", "\t[1]", "\n42", "\r\n[1]", "\u{a0}42", "42 ", "42\n", "42\n\n", "[1]\u{feff}",
     "23:59:60", "23:59:60.5", "12:34:60", "00:00:60.999999999", "2016-12-31T23:59:60Z", "2016-12-31T23:59:60Z UTC", "2016-12-31T18:59:60-05:00 New_York",
     "1e1_0", "-2.5E+1_2", "7e-3_00", "1_500e0_3kW", "1_0", "1_000.000_1", "-0", "-0.0", "0e0", "1E0", "5e-324", "1.7976931348623157e308", "9223372036854775808", "9999999999999999999", "0.1e1kW",
     "2021-01-15T12:00:00Z London", "2021-01-15T12:00:00+00:00 London", "2021-01-15T12:00:00Z Reykjavik", "2021-10-31T01:30:00+00:00 London", "2021-10-31T01:30:00+01:00 London",
@@ -527,7 +528,17 @@ fn edge_spellings(ctx: &mut Ctx) {
         for (k, text) in forms.iter().enumerate() {
             ctx.rec.evals += 1;
             let mut rec = Rec::new();
-            let v = zinc_fixed_point(text, &mut rec);
+            let mut v = zinc_fixed_point(text, &mut rec);
+            if !v.is_fail() {
+                // and the reader-based decoder agrees with the string-based one on each of them (1-byte reads, 7/1/64/3)
+                for chunks in [vec![1u8], vec![7, 1, 64, 3]] {
+                    let w = check_chunking(text.as_bytes(), &ReaderPlan { chunks, ..ReaderPlan::default() }, &mut rec);
+                    if w.is_fail() {
+                        v = w;
+                        break;
+                    }
+                }
+            }
             let accepted = rec.classes.contains_key("zinc:accepted");
             ctx.rec.class(if accepted { "edge-spelling:zinc:accepted" } else { "edge-spelling:zinc:rejected" });
             if accepted {
